@@ -97,9 +97,18 @@ class SLUGSConnector(api.AuthAPI):
             raise exceptions.PermissionDenied(
                 "Unrecognized user ID: {}".format(user_id)
             )
+        elif response.status_code != 200:
+            # Any other answer (e.g., 401, 403, 500, 503) is not SLUGS
+            # vouching for the user.
+            raise exceptions.PermissionDenied(
+                "SLUGS did not confirm user ID: {} (status {})".format(
+                    user_id,
+                    response.status_code
+                )
+            )
 
         response = requests.get(self.groups_url.format(user_id), timeout=10)
-        if response.status_code == 404:
+        if response.status_code != 200:
             raise exceptions.PermissionDenied(
                 "Group information could not be retrieved for user ID: "
                 "{}".format(user_id)
